@@ -184,7 +184,7 @@ func TestVerifC19Engine(t *testing.T) {
 					case "readOther":
 						readCheck(i, op.N, atomic.LoadInt64(&acked[op.N]))
 					case "snapshot":
-						if err := b.snapshot(1); err != nil && err != ErrSnapshotInProgress && !strings.Contains(err.Error(), "snapshot in progress") {
+						if err := b.snapshot(1); err != nil && err != ErrSnapshotInProgress && err != errSnapshotsDisabled && !strings.Contains(err.Error(), "snapshot in progress") {
 							fail("concurrent-snapshot-error", fmt.Sprintf("snapshot: %v", err))
 							return
 						}
